@@ -478,6 +478,56 @@ func cleanScenario(deliver bool) func() func() []string {
 	}
 }
 
+// cleanCutoffScenario (sequential): a transaction requested before the Clean cut-off and delivered
+// after it is younger than the cut-off, so Clean keeps its record: a later announcement is not
+// answered with "request" and a later delivery does not reach the processor again. Requested and
+// never delivered before the cut-off, the record goes and the transaction may be requested anew.
+func cleanCutoffScenario() func() func() []string {
+	return func() func() []string {
+		txm := bitcoin_reader.NewTxManager(txTimeout)
+		proc := &txProc{}
+		txm.SetTxProcessor(proc)
+		txm.SetTxSaver(proc)
+		interrupt := make(chan interface{})
+		late, never := txPair[0], txPair[1]
+		p0, p1 := uuid.New(), uuid.New()
+		txm.AddTxID(bg, p0, *late.TxHash())
+		txm.AddTxID(bg, p0, *never.TxHash())
+		vsched.Advance(5 * time.Second)
+		cutoff := vsched.Now()
+		vsched.Advance(2 * time.Second)
+		txm.AddTx(bg, interrupt, p0, late) // delivered after the cut-off
+		txm.Clean(bg, cutoff)
+		againLate, _ := txm.AddTxID(bg, p1, *late.TxHash())
+		againNever, _ := txm.AddTxID(bg, p1, *never.TxHash())
+		txm.AddTx(bg, interrupt, p1, late)
+		vsched.GoNamed("closer", func() {
+			txm.Stop(bg)
+			txm.Run(bg)
+		})
+		return func() []string {
+			var problems []string
+			if againLate {
+				problems = append(problems, "requested-after-delivery: a transaction delivered after the Clean cut-off was forgotten by Clean and requested again")
+			}
+			if !againNever {
+				problems = append(problems, "expired-entry-kept: an undelivered transaction last requested before the cut-off was still on record after Clean")
+			}
+			n := 0
+			for _, id := range proc.processed {
+				if id == *late.TxHash() {
+					n++
+				}
+			}
+			if n != 1 {
+				problems = append(problems, fmt.Sprintf("processed-count: the transaction reached the processor %d times", n))
+			}
+			label(fmt.Sprintf("late=%t never=%t processed=%d", againLate, againNever, n))
+			return problems
+		}
+	}
+}
+
 func c06Scenarios(thorough bool) []*scenario {
 	var r []*scenario
 	scripts := [][]string{{"A0"}, {"D0"}, {"A0", "D0"}, {"D0", "A0"}, {"A0", "A0"}, {"D0", "D0"}}
@@ -524,6 +574,7 @@ func c06Scenarios(thorough bool) []*scenario {
 	// Clean running next to the handlers: ~770 scheduling points per Clean (256 buckets), bound 1
 	r = append(r, &scenario{name: "txmanager/clean-while-announcing", bounds: []int{0, 1}, body: cleanScenario(false), steps: 50000})
 	r = append(r, &scenario{name: "txmanager/clean-while-delivering", bounds: []int{0, 1}, body: cleanScenario(true), steps: 50000})
+	r = append(r, &scenario{name: "txmanager/clean-cut-off-between-request-and-delivery", bounds: []int{0}, body: cleanCutoffScenario(), steps: 50000})
 	if thorough {
 		add(txScript{peers: [][]string{{"A0", "A0"}, {"A0"}}, poll: []int{1, 1}, adv: true})
 		add(txScript{peers: [][]string{{"A0", "A1"}, {"A1", "A0"}}, poll: []int{0, 1}, adv: true})
